@@ -14,7 +14,8 @@ import (
 
 // C12Case is a formula tree (exactly-one groups only in positive position).
 type C12Case struct {
-	F *ref.F `json:"f"`
+	F   *ref.F `json:"f"`
+	Dup bool   `json:"dup,omitempty"` // a group lists a variable twice: judged by the library's own Eval
 }
 
 var c12Counts = map[string]int{"quick": 30_000, "thorough": 600_000}
@@ -33,6 +34,11 @@ func c12GenPlain(r *gen.Rng, tier string, idx int) interface{} {
 func c12Run(ci interface{}, rec *Rec) {
 	c := ci.(*C12Case)
 	scen := "bf.Dimacs"
+	eval := treeEval(c.F, c.Dup)
+	if c.Dup {
+		scen = "bf.Dimacs/group-with-repeated-variable"
+		rec.Count("formulas_with_repeated_variable_in_group", 1)
+	}
 	var buf bytes.Buffer
 	var err error
 	if rec.Guard(scen, func() { err = bf.Dimacs(ToBF(c.F), &buf) }) {
@@ -89,7 +95,7 @@ func c12Run(ci interface{}, rec *Rec) {
 			for i, v := range elim {
 				m[v] = e>>uint(i)&1 == 1
 			}
-			val := c.F.Eval(m)
+			val := eval(m)
 			if e == 0 {
 				first = val
 			} else if val != first {
@@ -144,7 +150,7 @@ func init() {
 		Setup:    func(string) { InstallSeqHooks() },
 		Rule: "random formula trees as in C11 with exactly-one groups (size 0..9) only in positive position; the bytes written by bf.Dimacs are read by the harness's own strict DIMACS reader (header counts, literal ranges, name comments distinct and in range, names are variables of the formula); then for every assignment of the named variables: the formula's value (which must not depend on the variables the export eliminated) equals the satisfiability of the exported clauses under that assignment, decided by the harness's DPLL over the auxiliary variables. " +
 			"non-trivial = export with >= 2 clauses and >= 2 named variables; distinct by tree",
-		Assumptions: []string{"reference formula evaluator, DIMACS reader and DPLL of internal/ref", "exactly-one groups list distinct variables and occur only positively (as the property's quantifier says)"},
+		Assumptions: []string{"reference formula evaluator, DIMACS reader and DPLL of internal/ref", "exactly-one groups occur only positively (as the property's quantifier says) and list distinct variables, except in 1 case out of 10 where a group lists a variable twice and the formula is judged by the library's own Eval (self-consistency)"},
 		Floors: map[string]map[string]int64{
 			"quick":    {"assignments_compared": 200000, "exports_with_auxiliary_vars": 3000},
 			"thorough": {"assignments_compared": 4000000, "exports_with_auxiliary_vars": 60000},
@@ -156,6 +162,9 @@ func c12Gen(r *gen.Rng, tier string, idx int) interface{} {
 	c := c12GenPlain(r, tier, idx).(*C12Case)
 	if r.Chance(1, 8) { // variable names that look like the translation's own auxiliary names
 		gen.RenameAdversarial(r, c.F)
+	}
+	if r.Chance(1, 10) {
+		c.Dup = gen.DuplicateInGroup(r, c.F)
 	}
 	return c
 }
